@@ -766,6 +766,65 @@ def infidelity_option_cases(a):
     return out
 
 
+# ------------------------------------------------------------------ user-supplied cache arrays, basis sizes, propagator times
+def cache_cases():
+    """(name, model expression, callable, documented, signature)"""
+    out = []
+    p_d = dict(ispulse=True, d=2, basis=0, c=[dict(op=0, id='c0')], n=[dict(op=0, id='n0', sens=1), dict(op=1, id='n1', sens=2)], dt=0,
+               omega=None, cm=False, pc=False)
+    om = omega_tag(0)
+    nn, nb, no = 2, 4, len(om)
+    sig = 'c20-cache-array-shape'
+
+    def optshape(sh):
+        return 'None' if sh is None else '(Some %s)' % nats(sh)
+    good = [nn, nb, no]
+    shapes = [(None, ()), (good, ()), ([2] + good, ())]
+    for ax in range(3):                       # a wrong size on each axis, with and without the pulse axis
+        bad = list(good)
+        bad[ax] += 1
+        shapes += [(bad, ('ValueError',)), ([2] + bad, ('ValueError',))]
+    shapes += [([no], ('ValueError',)), ([nb, no], ('ValueError',)), ([1, 2] + good, ('ValueError',))]
+    for sh, doc in shapes:
+        out.append(('cache-control-matrix', 'validate_cache_control_matrix %s %s %s %s' % (optshape(sh), N(nn), N(nb), N(no)),
+                    (lambda s_: (lambda: real_pulse(p_d).cache_control_matrix(om, None if s_ is None else np.ones(s_, complex))))(sh), doc, sig))
+    for which in ('fidelity', 'generalized'):
+        for order in (1, 2):
+            exp = [nn, nn, no] if (order == 1 and which == 'fidelity') else [nn, nn, nb, nb, no]
+            cands = [(None, ()), (exp, ())]
+            for ax in range(len(exp)):
+                bad = list(exp)
+                bad[ax] += 1
+                cands.append((bad, ('ValueError',)))
+            cands.append(([nn, nn, nb, nb, no] if len(exp) == 3 else [nn, nn, no], ('ValueError',)))
+            for sh, doc in cands:
+                if sh is None and order == 2 and which == 'fidelity':
+                    pass
+                out.append(('cache-filter-function', 'validate_cache_filter_function %s %s %s %s %s %s' % (
+                    optshape(sh), s_(which), N(order), N(nn), N(nb), N(no)),
+                    (lambda s_, w, o: (lambda: real_pulse(p_d).cache_filter_function(om, filter_function=(None if s_ is None else np.ones(s_, complex)),
+                                                                                    which=w, order=o)))(sh, which, order), doc, sig))
+    for sh, doc in ((None, ()), ([no], ()), ([no + 1], ('ValueError',)), ([no - 1], ('ValueError',)), ([1, no], ('ValueError',))):
+        out.append(('cache-total-phases', 'validate_cache_total_phases %s %s' % (optshape(sh), N(no)),
+                    (lambda s_: (lambda: real_pulse(p_d).cache_total_phases(om, None if s_ is None else np.ones(s_, complex))))(sh), doc, sig))
+    for n in (1, 2, 3):
+        out.append(('basis-size', 'validate_basis_size (%d)%%Z' % n, (lambda k: (lambda: ff.Basis.pauli(k)))(n), (), None))
+        out.append(('basis-size', 'validate_basis_size (%d)%%Z' % n, (lambda k: (lambda: ff.Basis.ggm(k)))(n), (), None))
+    for n in (0, -1, -2):
+        out.append(('basis-size-pauli', 'validate_basis_size (%d)%%Z' % n, (lambda k: (lambda: ff.Basis.pauli(k)))(n), DOC, 'c20-basis-size'))
+        out.append(('basis-size-ggm', 'validate_basis_size (%d)%%Z' % n, (lambda k: (lambda: ff.Basis.ggm(k)))(n), DOC, 'c20-basis-size'))
+    tau = float(dt_tag(0, 2).sum())
+    inside = [0.0, 0.3 * tau, tau]
+    out.append(('propagator-times', 'validate_propagator_times %s' % lst(['false'] * 3), lambda: real_pulse(p_d).propagator_at_arb_t(np.array(inside)), (), None))
+    for i in range(3):
+        ts = list(inside)
+        ts[i] = tau * 1.5 + i
+        flags = ['true' if k == i else 'false' for k in range(3)]
+        out.append(('propagator-time-beyond-duration', 'validate_propagator_times %s' % lst(flags),
+                    (lambda tt: (lambda: real_pulse(p_d).propagator_at_arb_t(np.array(tt))))(ts), ('ValueError',), 'c20-propagator-time-beyond-duration'))
+    return out
+
+
 # ------------------------------------------------------------------ small entry points
 def small_cases(r):
     """(name, coq model verdict expression, callable, documented classes)"""
@@ -940,6 +999,8 @@ def collect_cases(ctx, thorough):
             col.case('error-transfer-matrix', nm, lit, call, doc, dict(expr=lit))
         for nm, c, doc in infidelity_option_cases(a):
             col.case('infidelity', nm, 'validate_infidelity %s' % analysis_c(c), real_analysis(c, 'infidelity'), doc, c)
+    for nm, lit, call, doc, sig in cache_cases():
+        col.case('misc', nm, lit, call, doc, dict(expr=lit), sig)
     for nm, lit, call, doc, *sig in small_cases(r):
         col.case('misc', nm, lit, call, doc, dict(expr=lit), *sig)
     return col
